@@ -272,7 +272,7 @@ impl Prop for C03 {
         "C03"
     }
     fn rule(&self) -> &'static str {
-        "cases = in-scope scenario (MAC, self-IP list, deny list, key; destination MAC drawn from the authorised set) x 0..6 unrelated history steps x one answerable request, optionally with varied IP header fields the responder is not documented to look at (TOS / traffic class, id / flow label, the three IPv4 flag bits with fragment offset 0, TTL / hop limit 1..255), a wrong transport checksum, IPv4 options on echo, a client MAC that is unicast / broadcast / group / zero, an earlier ARP/NS from the client's IP with another MAC (ARP request with sender address = client / target / 0.0.0.0 / other and target hardware address zero / own MAC / broadcast / client's, echo v4/v6 with data 0..1472, neighbour solicitation unicast/solicited-node with NDP options, SYN with PSH/URG/ECE/CWR and payload, handshaken TCP data / UDP carrying an application request of every protocol generator or a hostile STUN TLV list, FIN|ACK; arbitrary addresses and ports incl. 0 and 65535). Oracle: independent decoder; Ethernet/IP/port tuple of the reply is the mirror image of the request's (NS: source = solicited target; STUN change-port: source port = dport+1), buffer is exactly one frame. Non-trivial = a reply exists; distinct by hash of (request, reply)."
+        "cases = in-scope scenario (MAC, self-IP list, deny list, key; destination MAC drawn from the authorised set) x 0..6 unrelated history steps x one answerable request, optionally with varied IP header fields the responder is not documented to look at (TOS / traffic class, id / flow label, the three IPv4 flag bits with fragment offset 0, TTL / hop limit 1..255), a wrong transport checksum, IPv4 options on echo, a client MAC that is unicast / broadcast / group / zero, an earlier ARP/NS from the client's IP with another MAC (ARP request with sender address = client / target / 0.0.0.0 / other and target hardware address zero / own MAC / broadcast / client's, echo v4/v6 with data 0..1472, neighbour solicitation unicast/solicited-node with NDP options, SYN with PSH/URG/ECE/CWR and payload, handshaken TCP data / UDP carrying an application request of every protocol generator or a hostile STUN TLV list, FIN|ACK; arbitrary addresses and ports incl. 0 and 65535). Oracle: independent decoder; Ethernet/IP/port tuple of the reply is the mirror image of the request's (NS: source = solicited target; STUN change-port: source port = dport+1), buffer is exactly one frame. Non-trivial = a reply exists; distinct by hash of (request, reply). Shadow traffic (vf/shadow.rs): three cases in ten process, before every frame of the case, a sibling of that frame whose result is discarded — the same frame again, or one tuple element (source / destination port, source / destination address, source MAC), one payload bit or the payload length changed; TCP conversations are shadowed whole on a sibling flow validated with its own cookie; sound by the statement of C08, cases whose own flows meet a shadow tuple are excluded and counted."
     }
     fn run(&self, ctx: &mut RunCtx) {
         let n = ctx.share(ctx.tier.n(2_000_000, 20_000_000));
@@ -400,7 +400,7 @@ impl Prop for C04 {
         "C04"
     }
     fn rule(&self) -> &'static str {
-        "cases = C03's generator (every answerable request kind x both IP versions x all protocol payloads, odd/even sizes, all-0x00 / all-0xFF echo data 0..1472) plus echo requests up to the largest packet the IP length fields allow (65535) plus a directed zero-checksum construction (a UDP reply's echoed 16-bit word — STUN transaction id, DNS id — chosen so that the true checksum is 0x0000, over IPv4 and IPv6). Oracle: independent decoder and RFC 1071 checksum: IPv4 version/IHL/total length/unfragmented/TTL>=1/header checksum, IPv6 version/payload length/hop limit (255 for NA), ICMP/ICMPv6/TCP/UDP checksums over the correct pseudo-header, UDP length, UDP-over-IPv6 checksum never 0 (over IPv4 a zero field only where the computed checksum is zero), TCP data offset, SYN-ACK window != 0. Non-trivial = a reply exists; distinct by hash of (request, reply)."
+        "cases = C03's generator (every answerable request kind x both IP versions x all protocol payloads, odd/even sizes, all-0x00 / all-0xFF echo data 0..1472) plus echo requests up to the largest packet the IP length fields allow (65535) plus a directed zero-checksum construction (a UDP reply's echoed 16-bit word — STUN transaction id, DNS id — chosen so that the true checksum is 0x0000, over IPv4 and IPv6). Oracle: independent decoder and RFC 1071 checksum: IPv4 version/IHL/total length/unfragmented/TTL>=1/header checksum, IPv6 version/payload length/hop limit (255 for NA), ICMP/ICMPv6/TCP/UDP checksums over the correct pseudo-header, UDP length, UDP-over-IPv6 checksum never 0 (over IPv4 a zero field only where the computed checksum is zero), TCP data offset, SYN-ACK window != 0. Non-trivial = a reply exists; distinct by hash of (request, reply). Shadow traffic (vf/shadow.rs): three cases in ten process, before every frame of the case, a sibling of that frame whose result is discarded — the same frame again, or one tuple element (source / destination port, source / destination address, source MAC), one payload bit or the payload length changed; TCP conversations are shadowed whole on a sibling flow validated with its own cookie; sound by the statement of C08, cases whose own flows meet a shadow tuple are excluded and counted."
     }
     fn run(&self, ctx: &mut RunCtx) {
         let n = ctx.share(ctx.tier.n(2_000_000, 20_000_000));
